@@ -11,7 +11,7 @@ from fractions import Fraction
 from . import twin
 
 PRESENT = ["list", "ndarray", "tuple", "fortran"]
-LABELS = [None, "step", "mix it", "two\nlines", "transfer_7", "x" * 20, "", "sample {i}", "50 % {} of %s", "a\\b 'q' \"d\" (0)"]
+LABELS = [None, "step", "mix it", "two\nlines", "transfer_7", "x" * 20, "", "sample {i}", "50 % {} of %s", "a\\b 'q' \"d\" (0)", "two  blanks   inside", "tab\tinside"]
 
 
 def mk_plate(name, R, C, minv, maxv, init, names=None):
@@ -222,7 +222,10 @@ def op_transfer(rng, sess, big, fault=0.0, nmax=4, same_ok=True, washes=(1, 2, 3
         vols.append(v)
     if fault and rng.random() < fault:
         j = rng.randrange(n)
-        vols[j] = vols[j] + rng.choice([1, 2, big, 3 * big])
+        if rng.random() < 0.25:
+            vols[j] = -rng.choice([1, 2, big])  # a negative volume: refused under every configuration of the worklist
+        else:
+            vols[j] = vols[j] + rng.choice([1, 2, big, 3 * big])
     # broadcast forms
     form = rng.random()
     swl, dwl, vl = sw, dw, vols
